@@ -68,12 +68,13 @@ static void print_hex (const bytes_t *b) {
 /* generated data, the same definition as `genData` in lean/Drv/C12.lean:
      rep:<n>:<hex>          the pattern repeated/truncated to n bytes
      lcg:<n>:<seed>:<mod>   x = x*6364136223846793005+1442695040888963407 (mod 2^64); byte = (x>>33) % mod
-     mix:<n>:<seed>:<mod>:<run>  lcg bytes, but every other block of <run> bytes repeats the previous block */
+     mix:<n>:<seed>:<mod>:<run>  lcg bytes, but every other block of <run> bytes repeats the previous block
+   (gen_data: '+'-separated concatenation of such segments) */
 static uint64_t lcg_next (uint64_t *x) {
   *x = *x * 6364136223846793005ull + 1442695040888963407ull;
   return *x >> 33;
 }
-static int gen_data (const char *spec, bytes_t *b) {
+static int gen_one (const char *spec, bytes_t *b) {
   b->len = 0;
   if (strncmp (spec, "rep:", 4) == 0) {
     char *e;
@@ -116,6 +117,22 @@ static int gen_data (const char *spec, bytes_t *b) {
     return 1;
   }
   return 0;
+}
+
+/* a spec may be a '+'-separated concatenation of segments: "rep:262000:6162+lcg:144:5:256" */
+static int gen_data (const char *spec, bytes_t *b) {
+  bytes_t seg = {0};
+  char *copy = strdup (spec), *s = copy, *e;
+  int ok = 1;
+  b->len = 0;
+  while (ok && s != NULL) {
+    if ((e = strchr (s, '+')) != NULL) *e++ = 0;
+    ok = gen_one (s, &seg);
+    if (ok) push (b, seg.p, seg.len);
+    s = e;
+  }
+  free (seg.p); free (copy);
+  return ok;
 }
 
 int main (void) {
